@@ -101,6 +101,17 @@ def statements(level):
     S.append(_mk('SELECT q.a, q.n FROM (SELECT a, COUNT(*) AS n FROM t GROUP BY a) q WHERE q.n > 0', 'derived-agg'))
     S.append(_mk('SELECT x.a, y.c FROM (SELECT a, b FROM t WHERE b IS NOT NULL) x JOIN (SELECT a, c FROM u) y ON x.a = y.a', 'derived-join'))
     S.append(_mk('WITH c AS (SELECT a, SUM(b) AS sb FROM t GROUP BY a) SELECT c.a, c.sb, u.c FROM c LEFT JOIN u ON c.a = u.a', 'cte-join'))
+    # a derived table / CTE whose output REUSES an input column's name for a different value, filtered from outside: the outer predicate means the computed value
+    S.append(_mk('SELECT q.a, q.b FROM (SELECT a, b + 1 AS b FROM t) q WHERE q.b = 2', 'derived-shadow-arith'))
+    S.append(_mk('SELECT a, b FROM (SELECT b AS a, a AS b FROM t) q WHERE a = 1', 'derived-shadow-swap'))
+    S.append(_mk('SELECT a, b FROM (SELECT a, COALESCE(b, 0) AS b FROM t) q WHERE b = 0', 'derived-shadow-coalesce'))
+    S.append(_mk('SELECT a, c FROM (SELECT t.a, COALESCE(u.c, 0) AS c FROM t LEFT JOIN u ON t.a = u.a) q WHERE c = 0', 'derived-shadow-coalesce-outer-join'))
+    S.append(_mk('SELECT a, c FROM (SELECT u.a, COALESCE(t.b, 0) AS c FROM t RIGHT JOIN u ON t.a = u.a) q WHERE c = 0', 'derived-shadow-coalesce-right-join'))
+    S.append(_mk('SELECT a, b FROM (SELECT a, COUNT(*) AS b FROM t GROUP BY a) q WHERE b = 1', 'derived-shadow-aggregate'))
+    S.append(_mk('WITH q AS (SELECT a, -b AS b FROM t) SELECT a, b FROM q WHERE b < 0', 'cte-shadow-arith'))
+    S.append(_mk('SELECT a FROM (SELECT a, a * 0 AS s FROM t) q WHERE s = 0', 'derived-shadow-other-type'))
+    S.append(_mk('SELECT a, b FROM (SELECT a, b FROM (SELECT a, a AS b FROM t) x WHERE b = 1) y WHERE a = b', 'derived-shadow-nested'))
+    S.append(_mk("SELECT a, s FROM (SELECT a, CASE WHEN s IS NULL THEN 'n' ELSE s END AS s FROM t) q WHERE s = 'n'", 'derived-shadow-case'))
     # date / double columns of u
     S.append(_mk("SELECT a, c, d FROM u WHERE d >= DATE '2024-01-01' AND c < 2.0", 'date-double-filter'))
     S.append(_mk('SELECT d, SUM(c) AS sc, COUNT(*) AS n FROM u GROUP BY d', 'date-group'))
